@@ -12,4 +12,5 @@ INVARIANT PixMeta
 INVARIANT RunIdsOneBased
 INVARIANT SharedObject
 INVARIANT RoundTrip
+INVARIANT EmitCfg
 CHECK_DEADLOCK FALSE
